@@ -76,6 +76,14 @@ def stepNum (args : List String) : String :=
       let (x, _) := Libvna.LA.qrsolve Libvna.cfQROps (v.take (m * n)).toArray (v.drop (m * n)).toArray m n o
       "ok ? X " ++ joinHex x.toList
     | _, _, _, _ => "bad-args"
+  | "qrsolve2" :: ms :: ns :: os :: rest =>      -- _vnacommon_qr followed by _vnacommon_qrsolve2
+    match ms.toNat?, ns.toNat?, os.toNat?, parseCFs rest with
+    | some m, some n, some o, some v =>
+      if v.length != m * n + m * o then "bad-args" else
+      let (q, r, _) := Libvna.LA.qr Libvna.cfQROps (v.take (m * n)).toArray m n
+      let x := Libvna.LA.qrsolve2 Libvna.cfQROps q r (v.drop (m * n)).toArray m n o
+      "ok ? X " ++ joinHex x.toList ++ " Q " ++ joinHex q.toList ++ " R " ++ joinHex r.toList
+    | _, _, _, _ => "bad-args"
   | "lu" :: ns :: rest =>
     match ns.toNat?, parseCFs rest with
     | some n, some v =>
